@@ -29,6 +29,57 @@ def field_of_self(B, op):
     return None
 
 
+def _called_under_lock(P, fn, depth=0):
+    """every call site of the private helper fn lies inside the live range of a wrap_lock guard of its caller (or the caller is
+    itself such a helper)"""
+    sig = P.F.fns.get(fn)
+    if sig is None or sig.get('vis') == 'pub' or depth > 3:
+        return False
+    sites = P.callers_of(lambda n, fn=fn: n == fn)
+    if not sites:
+        return False
+    for c, cbb, t in sites:
+        CB = P.B(c)
+        locks = [bb for bb, t2 in CB.calls() if any(n.endswith('Mutex::<T>::lock') or n.endswith('Mutex::<T>::try_lock') for n in callee_names(t2)) and t2['args']
+                 and field_of_self(CB, t2['args'][0]) == 'wrap_lock']
+        if any(guard_flow(CB, lb)[1].get(cbb) for lb in locks):
+            continue
+        if not locks and _called_under_lock(P, c.split('::{')[0], depth + 1):
+            continue
+        return False
+    return True
+
+
+def helper_accesses(P, fn):
+    """atomic accesses a small straight-line helper of the allocator performs, as (kind, field, index of the parameter stored | ('const', v) | None)"""
+    HB = P.B(fn)
+    if HB is None or not fn.startswith('edp_client::pid_allocator::'):
+        return None
+    out = []
+    for bb, t in HB.calls():
+        kind = is_atomic_call(t)
+        if not kind or not t['args']:
+            continue
+        f = field_of_self(HB, t['args'][0])
+        val = None
+        if kind in ('store', 'fetch_add') and len(t['args']) > 1:
+            o = HB.origin(t['args'][1])
+            if o[0] == 'arg' and not o[2]:
+                val = o[1] - 1          # index among the call's arguments
+            elif fold(o) is not None:
+                val = ('const', fold(o))
+        out.append((kind, f, val))
+    return out
+
+
+def _only_called_from(P, fn, allowed, depth=0):
+    """is every (transitive) caller of fn one of `allowed`?  (a function nobody calls does not qualify)"""
+    callers = sorted({c.split('::{')[0] for c, bb, t in P.callers_of(lambda n, fn=fn: n == fn)})
+    if not callers or depth > 4:
+        return False
+    return all(c in allowed or _only_called_from(P, c, allowed, depth + 1) for c in callers)
+
+
 def counter_writers(ctx, rule):
     """next_id / next_serial only ever move forward: the only functions that write them are allocate (under the rules
     below) and the constructor. A reset anywhere else re-issues identifiers that are still in use."""
@@ -54,6 +105,8 @@ def counter_writers(ctx, rule):
             base = B.path.split('::{')[0]
             if base in (PA + '::allocate', PA + '::new'):
                 ctx.ok(rule, inst, 'written by %s' % base.rsplit('::', 1)[1], ctx.where(B, bb))
+            elif _only_called_from(P, base, (PA + '::allocate', PA + '::new')):
+                ctx.ok(rule, inst, 'written by %s, a helper that only allocate() / the constructor call' % base.rsplit('::', 1)[1], ctx.where(B, bb))
             else:
                 ctx.bad(rule, inst, '%s writes the counter %s (%s): identifiers handed out before are issued again afterwards' % (base.rsplit('::', 1)[1], f, kind), ctx.where(B, bb),
                         key='WHO:%s:writes:%s' % (base, f))
@@ -155,6 +208,8 @@ def run(ctx):
             held = any(bt.get(bb) for (_, bt) in flows)
             if held:
                 ctx.ok('C16.1-lock', inst, 'guard held on every path reaching the access', ctx.where(B, bb))
+            elif not locks and _called_under_lock(P, B.path.split('::{')[0]):
+                ctx.ok('C16.1-lock', inst, 'a helper that takes no lock itself; every call of it (in this module, and nobody else can call it) happens while the caller holds the wrap_lock guard', ctx.where(B, bb))
             else:
                 ctx.bad('C16.1-lock', inst, 'access to %s not covered by a live wrap_lock guard on all paths (locks acquired in this function: %d)' % (f, len(locks)),
                         ctx.where(B, bb), key='LOCK:' + inst)
@@ -177,6 +232,8 @@ def run(ctx):
 
         def atomic(ev, kind, field):
             bb, names, args, e = ev
+            if names and names[0].startswith('<helper:'):
+                return names[0] == '<helper:%s:%s>' % (kind, field)
             t = B.blocks[bb]['t']
             return is_atomic_call(t) == kind and args and _field_expr(args[0]) == field
 
@@ -185,7 +242,20 @@ def run(ctx):
         n_pid_paths = 0
         seen_kinds = {}
         for path in paths:
-            env, events = path_eval(B, path)
+            env, events0 = path_eval(B, path)
+            # a call of a private helper of the module counts as the atomic accesses the helper performs
+            events = []
+            for ev in events0:
+                hs = None
+                for n_ in ev[1]:
+                    if n_.startswith(PA + '::') and n_ not in (PA + '::allocate',) and not is_atomic_call(B.blocks[ev[0]]['t']):
+                        hs = helper_accesses(P, n_)
+                if hs:
+                    for kind_, f_, val_ in hs:
+                        varg = ev[2][val_] if isinstance(val_, int) and val_ < len(ev[2]) else (('const', val_[1]) if isinstance(val_, tuple) else ('opaque', ev[0]))
+                        events.append((ev[0], ['<helper:%s:%s>' % (kind_, f_)], (('field', ('arg', 1), f_), varg), ('call', '<helper>', ev[0], ())))
+                else:
+                    events.append(ev)
             news = [ev for ev in events if any(n == 'erltf::types::ExternalPid::new' for n in ev[1])]
             if not news:
                 continue
